@@ -599,7 +599,7 @@ pub fn run(opts: &Opts) -> Report {
     run_sub(&a, opts, opts.tier.pick(8000, 120_000), &mut rep);
     run_sub(&m, opts, opts.tier.pick(10_000, 120_000), &mut rep);
     crate::props::committed_replays(&RemapExtreme, opts, &mut rep);
-    run_sub(&RemapExtreme, opts, opts.tier.pick(96, 1600), &mut rep);
+    run_sub(&RemapExtreme, opts, opts.tier.pick(64, 1000), &mut rep);
     let _ = guard(|| ());
     rep
 }
